@@ -43,9 +43,13 @@ type evMode struct {
 	Reply   int    // size of the Write reply (>= hdr), -1 = echo the datagram
 	SendTo  bool   // additionally SendTo the collector socket
 	To16    bool   // pass the collector address in 16-byte IPv4 form
+	Async   bool   // raw cases: reply with AsyncWrite (documented to go synchronously with UDP) instead of Write
 }
 
 type caseSpec struct {
+	// Raw: the handler answers every datagram with exactly the bytes it peeked (zero copy, possibly none
+	// at all) before consuming them; replies are matched by content instead of by a reply header.
+	Raw     bool
 	Net     string // udp4, udp6
 	Loops   int
 	ReadCap int
@@ -54,22 +58,22 @@ type caseSpec struct {
 }
 
 func (c caseSpec) String() string {
-	return fmt.Sprintf("%s loops=%d rcap=%d senders=%v modes=%+v", c.Net, c.Loops, c.ReadCap, c.Senders, c.Modes)
+	return fmt.Sprintf("%s loops=%d rcap=%d raw=%v senders=%v modes=%+v", c.Net, c.Loops, c.ReadCap, c.Raw, c.Senders, c.Modes)
 }
 
 type server struct {
-	cs        caseSpec
-	mu        sync.Mutex
-	addrOf    map[string]int // sender address -> sender id
-	nextSmall map[int]int    // next expected sequence number of header-less datagrams per sender
-	smallSeqs map[int][]int  // per sender: sequence numbers of its header-less datagrams, in order
-	seen      map[[2]int]int
-	sentTo    map[[2]int][]byte // what SendTo was asked to deliver to the third socket
-	fails     []string
-	nev       int
-	collector net.Addr
-	collector16 net.Addr
-	partial   bool // an event consumed only part/none and another event followed on the same loop
+	cs              caseSpec
+	mu              sync.Mutex
+	addrOf          map[string]int // sender address -> sender id
+	nextSmall       map[int]int    // next expected sequence number of header-less datagrams per sender
+	smallSeqs       map[int][]int  // per sender: sequence numbers of its header-less datagrams, in order
+	seen            map[[2]int]int
+	sentTo          map[[2]int][]byte // what SendTo was asked to deliver to the third socket
+	fails           []string
+	nev             int
+	collector       net.Addr
+	collector16     net.Addr
+	partial         bool // an event consumed only part/none and another event followed on the same loop
 	lastLoopPartial map[gnet.EventLoop]bool
 }
 
@@ -79,7 +83,7 @@ func (s *server) failf(key, f string, a ...any) {
 	}
 }
 
-func (s *server) OnOpen(c gnet.Conn) ([]byte, gnet.Action) { return nil, gnet.None }
+func (s *server) OnOpen(c gnet.Conn) ([]byte, gnet.Action)   { return nil, gnet.None }
 func (s *server) OnClose(c gnet.Conn, err error) gnet.Action { return gnet.None }
 
 func (s *server) OnTraffic(c gnet.Conn) gnet.Action {
@@ -128,6 +132,20 @@ func (s *server) OnTraffic(c gnet.Conn) gnet.Action {
 	m := s.cs.Modes[s.nev%len(s.cs.Modes)]
 	s.nev++
 	payload := append([]byte(nil), b...)
+	if s.cs.Raw {
+		// the peeked bytes are valid until they are consumed: answer first
+		var w int
+		var err error
+		if m.Async {
+			err = c.AsyncWrite(b, nil)
+			w = len(b)
+		} else {
+			w, err = c.Write(b)
+		}
+		if err != nil || w != len(b) {
+			s.failf("udp-write", "Write/AsyncWrite of the %d peeked bytes returned (%d, %v)", len(b), w, err)
+		}
+	}
 	switch m.Consume {
 	case "all":
 		_, _ = c.Discard(-1)
@@ -144,6 +162,9 @@ func (s *server) OnTraffic(c gnet.Conn) gnet.Action {
 		s.lastLoopPartial[c.EventLoop()] = true
 	default:
 		s.lastLoopPartial[c.EventLoop()] = true
+	}
+	if s.cs.Raw {
+		return gnet.None
 	}
 	// reply: [sender][seq] + generated bytes, or the echo
 	var reply []byte
@@ -282,6 +303,11 @@ func runCase(cs caseSpec) (fails []string, infra string, s *server) {
 			buf := make([]byte, 140000)
 			pending := map[int]bool{}
 			got := map[int]int{}
+			defer func() { // a sender that gives up releases its share of the window
+				for seq := range pending {
+					atomic.AddInt64(&inflight, -int64(sd.sizes[seq]+64))
+				}
+			}()
 			recvOne := func(d time.Duration) bool {
 				_ = sd.c.SetReadDeadline(time.Now().Add(d))
 				n, from, err := sd.c.ReadFromUDP(buf)
@@ -290,6 +316,35 @@ func runCase(cs caseSpec) (fails []string, infra string, s *server) {
 				}
 				if from.Port != raddr.Port {
 					add("VERIF-KEY:udp-reply-from sender %d: a reply came from %v, not from the listener %v", i, from, raddr)
+				}
+				if cs.Raw {
+					// the reply is the datagram itself
+					var seq int
+					if n >= hdr {
+						if hs := int(binary.BigEndian.Uint32(buf)); hs != i {
+							add("VERIF-KEY:udp-reply-misdirected sender %d received a %d-byte datagram that is not a reply to it", i, n)
+							return true
+						}
+						seq = int(binary.BigEndian.Uint32(buf[4:]))
+					} else {
+						// header-less datagrams fly one at a time: this answers the pending one
+						seq = -1
+						for k := range pending {
+							if sd.sizes[k] < hdr {
+								seq = k
+							}
+						}
+					}
+					if seq < 0 || seq >= len(sd.sizes) || !bytes.Equal(buf[:n], dgram(i, seq, sd.sizes[seq])) {
+						add("VERIF-KEY:udp-reply-payload sender %d received a %d-byte reply that is not exactly the bytes the handler was given for any pending datagram (pending %v)", i, n, keys(pending))
+						return true
+					}
+					got[seq]++
+					if pending[seq] {
+						delete(pending, seq)
+						atomic.AddInt64(&inflight, -int64(sd.sizes[seq]+64))
+					}
+					return true
 				}
 				if n < ackLen || int(binary.BigEndian.Uint32(buf)&^0xA0000000) != i || binary.BigEndian.Uint32(buf)&0xA0000000 != 0xA0000000 {
 					add("VERIF-KEY:udp-reply-misdirected sender %d received a %d-byte datagram that is not a reply to it", i, n)
@@ -437,8 +492,10 @@ func drawCase(t *rapid.T) caseSpec {
 			Reply:   rapid.SampledFrom([]int{-1, -1, hdr, 100, 1400}).Draw(t, "reply"),
 			SendTo:  rapid.IntRange(0, 2).Draw(t, "sendTo") == 0,
 			To16:    rapid.Bool().Draw(t, "to16"),
+			Async:   rapid.Bool().Draw(t, "async"),
 		})
 	}
+	cs.Raw = rapid.IntRange(0, 2).Draw(t, "raw") == 0
 	return cs
 }
 
@@ -468,6 +525,16 @@ func TestC08Datagrams(t *testing.T) {
 		}
 		if cs.Net == "udp6" {
 			st.Label("ipv6")
+		}
+		if cs.Raw {
+			st.Label("raw_zero_copy_replies")
+			for _, ss := range cs.Senders {
+				for _, sz := range ss {
+					if sz == 0 {
+						st.Label("empty_reply_written")
+					}
+				}
+			}
 		}
 		if st.WantSample(s.partial) {
 			st.Sample(s.partial, cs.String())
